@@ -94,3 +94,65 @@ Print Assumptions C13_eval_text_only.
 Theorem C13_expr_text_only : forall U exec st e, expr_with U exec st (strip e) = expr_with U exec st e.
 Proof. exact expr_with_strip. Qed.
 Print Assumptions C13_expr_text_only.
+
+(* ---- whole programs (Proofs/RepSimFacts.v) ----
+   [vrel] relates two values that are equal, or well-formed float-free values with the same
+   string, or containers of related elements (identical floats may sit inside differently
+   represented containers).  It is lifted to variables, scopes, the command table (procedure
+   bodies are values), exceptions, results and interpreter states ([strel]).  The fundamental
+   lemma: EVERY command of the interpreter - all natives, procedures, the word, script and
+   expression evaluators, at every nesting depth - maps related states and arguments to related
+   states and results.  So the result of any script and the final variable state do not depend on
+   the representation of any value that is not a float read back from a string. *)
+From Molt Require Import Model.Unicode Check.ScriptObs Proofs.RepSimFacts.
+
+Theorem C13_every_command_respects_representation : forall U fuel, exec_rel (run_exec U fuel).
+Proof. exact run_exec_rel. Qed.
+Print Assumptions C13_every_command_respects_representation.
+
+(* any script, from related states, evaluated from any two values with the same text *)
+Theorem C13_scripts : forall U fuel st st' v w, strel st st' -> as_str v = as_str w ->
+  mrel vrel (eval_value U fuel st v) (eval_value U fuel st' w).
+Proof. exact eval_rel. Qed.
+Print Assumptions C13_scripts.
+
+(* expressions give EQUAL values *)
+Theorem C13_expressions : forall U fuel st st' v w, strel st st' -> as_str v = as_str w ->
+  mrel eqr (expr U fuel st v) (expr U fuel st' w).
+Proof. exact expr_rel. Qed.
+Print Assumptions C13_expressions.
+
+(* related outcomes are indistinguishable once everything is read as a string *)
+Theorem C13_related_is_unobservable : forall m m', mrel vrel m m' ->
+  strip_state (fst m') = strip_state (fst m) /\ strip_res (snd m') = strip_res (snd m).
+Proof. exact mrel_observable. Qed.
+Print Assumptions C13_related_is_unobservable.
+
+(* the property's own formulation: run the program as written, and with EVERY command invocation at
+   every nesting depth receiving fresh copies of its arguments and returning a fresh copy of its
+   result through a representation-stripping identity that keeps floats ([ident_keep]): same final
+   state, same result, once read as strings *)
+Theorem C13_program_with_stripping_identity : forall U fuel st s,
+  let m := eval U fuel st s in
+  let m' := eval_value_T ident_keep U fuel st (VStr s) in
+  strip_state (fst m') = strip_state (fst m) /\ strip_res (snd m') = strip_res (snd m) /\
+  out_str m' = out_str m.
+Proof. exact C13_program_ident_keep. Qed.
+Print Assumptions C13_program_with_stripping_identity.
+
+(* histories of scripts on one interpreter: equal outcomes, recorder trace, variable probes, depth *)
+Theorem C13_histories : forall scripts probes st st', strel st st' ->
+  let '(s1, outs) := Check.ScriptObs.run_history st scripts [] in
+  let '(s1', outs') := Check.ScriptObs.run_history st' scripts [] in
+  outs' = outs /\ i_trace s1' = i_trace s1 /\
+  map (Check.ScriptObs.obs_var s1') probes = map (Check.ScriptObs.obs_var s1) probes /\
+  sc_current (i_scopes s1') = sc_current (i_scopes s1).
+Proof. exact history_observation_rel. Qed.
+Print Assumptions C13_histories.
+
+(* the float exception, at program level *)
+Theorem C13_float_program_refuted :
+  obs (eval std_uni 50 (st_with_x (VFlt f_five)) (lit "expr {$x / 2}")) = Some (inr (lit "2.5")) /\
+  obs (eval std_uni 50 (st_with_x (strip (VFlt f_five))) (lit "expr {$x / 2}")) = Some (inr (lit "2")).
+Proof. exact float_program_observable. Qed.
+Print Assumptions C13_float_program_refuted.
